@@ -47,11 +47,12 @@ type World struct {
 	msgSeq    int
 	gen       map[string]int
 
-	Ops   []OpRec
-	Viols []Viol
-	Stats map[string]int64
-	Kinds map[string]int // operations by kind
-	gin   *gin.Engine
+	Ops       []OpRec
+	Viols     []Viol
+	violCount map[string]int
+	Stats     map[string]int64
+	Kinds     map[string]int // operations by kind
+	gin       *gin.Engine
 	// CheckJobs makes RunJob verify each job's row diff against its criterion
 	CheckJobs bool
 	// NoJobs makes RunJob a no-op that still takes its time slot (twin runs)
@@ -129,7 +130,14 @@ func (w *World) Violate(prop, sig, format string, a ...any) { w.violate(prop, si
 
 func (w *World) violate(prop, sig, format string, a ...any) {
 	msg := fmt.Sprintf(format, a...)
-	if len(w.Viols) < 20 {
+	// a few witnesses per kind, not "the first twenty of any kind": a defect that
+	// floods one property's oracle must not crowd out what another one sees
+	if w.violCount == nil {
+		w.violCount = map[string]int{}
+	}
+	key := prop + "|" + sig
+	w.violCount[key]++
+	if w.violCount[key] <= 3 && len(w.Viols) < 300 {
 		w.Viols = append(w.Viols, Viol{Prop: prop, Sig: sig, Msg: msg, Op: len(w.Ops)})
 	}
 }
